@@ -85,6 +85,7 @@ from .backend.queues import Queue, SimpleQueue
 from .backend.reduction import set_loky_pickler, get_loky_pickler_name
 from .backend.utils import kill_process_tree, get_exitcodes_terminated_worker
 from .initializers import _prepare_initializer
+from . import _verif
 
 
 # Mechanism to prevent infinite process spawning. When a worker of a
@@ -455,15 +456,23 @@ def _process_worker(
 
     mp.util.debug(f"Worker started with timeout={timeout}")
     _enable_faulthandler_if_needed()
+    if _verif.ENABLED:
+        _verif.point("worker.init_done")
 
     while True:
         try:
+            if _verif.ENABLED:
+                _verif.point("worker.before_get")
             call_item = call_queue.get(block=True, timeout=timeout)
+            if _verif.ENABLED:
+                _verif.point("worker.got_item")
             if call_item is None:
                 mp.util.info("Shutting down worker on sentinel")
         except queue.Empty:
             mp.util.info(f"Shutting down worker after timeout {timeout:0.3f}s")
             if processes_management_lock.acquire(block=False):
+                if _verif.ENABLED:
+                    _verif.point("worker.mgmt_probe")
                 processes_management_lock.release()
                 call_item = None
             else:
@@ -481,7 +490,11 @@ def _process_worker(
             sys.exit(1)
         if call_item is None:
             # Notify queue management thread about worker shutdown
+            if _verif.ENABLED:
+                _verif.point("worker.before_announce")
             result_queue.put(pid)
+            if _verif.ENABLED:
+                _verif.point("worker.announced")
             is_clean = worker_exit_lock.acquire(True, timeout=30)
 
             # Early notify any loky executor running in this worker process
@@ -496,6 +509,8 @@ def _process_worker(
             return
         try:
             r = call_item()
+            if _verif.ENABLED:
+                _verif.point("worker.before_send")
         except BaseException as e:
             exc = _ExceptionWithTraceback(e)
             result_queue.put(_ResultItem(call_item.work_id, exception=exc))
@@ -506,6 +521,8 @@ def _process_worker(
         # Free the resource as soon as possible, to avoid holding onto
         # open files or shared memory that is not needed anymore
         del call_item
+        if _verif.ENABLED:
+            _verif.point("worker.sent")
 
         if _USE_PSUTIL:
             if _process_reference_size is None:
@@ -696,6 +713,8 @@ class _ExecutorManagerThread(threading.Thread):
         readers = [result_reader, wakeup_reader]
         worker_sentinels = [p.sentinel for p in list(self.processes.values())]
         ready = wait(readers + worker_sentinels)
+        if _verif.ENABLED:
+            _verif.point("mgr.after_wait")
 
         bpe = None
         is_broken = True
@@ -802,6 +821,8 @@ class _ExecutorManagerThread(threading.Thread):
                         "timeout or by a memory leak.",
                         UserWarning,
                     )
+                    if _verif.ENABLED:
+                        _verif.point("mgr.respawn")
                     with executor._processes_management_lock:
                         executor._adjust_process_count()
                     executor = None
@@ -899,6 +920,8 @@ class _ExecutorManagerThread(threading.Thread):
 
     def shutdown_workers(self):
         # shutdown all workers in self.processes
+        if _verif.ENABLED:
+            _verif.point("mgr.shutdown_workers")
 
         # Create a list to avoid RuntimeError due to concurrent modification of
         # processes. nb_children_alive is thus an upper bound. Also release the
@@ -964,6 +987,8 @@ class _ExecutorManagerThread(threading.Thread):
         with self.shutdown_lock:
             self.thread_wakeup.close()
 
+        if _verif.ENABLED:
+            _verif.point("mgr.join")
         # If .join() is not called on the created processes then
         # some ctx.Queue methods may deadlock on macOS.
         with self.processes_management_lock:
@@ -1304,6 +1329,8 @@ class ProcessPoolExecutor(Executor):
             self._queue_count += 1
             # Wake up queue management thread
             self._executor_manager_thread_wakeup.wakeup()
+            if _verif.ENABLED:
+                _verif.point("submit.after_wakeup")
 
             self._ensure_executor_running()
             # Wake it up again: it may already have handled the first wake-up
